@@ -1320,36 +1320,36 @@ theorem findBetween_errType_of_start (last : Bool) (s p : Bytes) (st fin : Val) 
     findBetween last (.str s) (.str p) st fin = .err [Cat.invalidType] := by
   simp only [findBetween, strArg_str, Res.ok_bind, h, errType, Res.err_bind]
 
-/-- `finish` is looked at only when `start` is within the string -/
-theorem findBetween_errType_of_finish (last : Bool) (s p : Bytes) (st fin : Val) (i : Int) (k : Nat)
-    (hi : toInt st = .int i) (hk : startOffset s i = some k) (hf : intArg fin = .err [Cat.invalidType]) :
+/-- `finish` is type-checked whatever `start` is (before the repair FX26 it was looked at only when `start` lay
+    within the string) -/
+theorem findBetween_errType_of_finish (last : Bool) (s p : Bytes) (st fin : Val) (i : Int)
+    (hi : toInt st = .int i) (hf : intArg fin = .err [Cat.invalidType]) :
     findBetween last (.str s) (.str p) st fin = .err [Cat.invalidType] := by
-  simp only [findBetween, strArg_str, Res.ok_bind, hi, hk, hf, Res.err_bind]
+  simp only [findBetween, strArg_str, Res.ok_bind, hi, hf, Res.err_bind]
 
 theorem findBetween_errType_iff (last : Bool) (s p : Bytes) (st fin : Val) :
     findBetween last (.str s) (.str p) st fin = .err [Cat.invalidType] ↔
       toInt st = .notNum ∨
       (toInt st = .notInt ∧ (toInt fin = .notNum ∨
         (((∃ j, toInt fin = .int j) ∨ toInt fin = .notInt) ∧ toDecimal st = none))) ∨
-      (∃ i k, toInt st = .int i ∧ startOffset s i = some k ∧ intArg fin = .err [Cat.invalidType]) := by
+      ((∃ i, toInt st = .int i) ∧ intArg fin = .err [Cat.invalidType]) := by
   simp only [findBetween, strArg_str, Res.ok_bind]
   cases hst : toInt st with
   | int i =>
-    simp only [Res.ok_bind, reduceCtorEq, false_and, false_or, ToInt.int.injEq, exists_and_left, exists_eq_left']
-    cases hso : startOffset s i with
-    | none => simp
-    | some k =>
-      simp only [bind_eq_err_iff]
-      constructor
-      · rintro (h | ⟨a, _, h⟩)
-        · exact ⟨k, rfl, h⟩
-        · exfalso
-          split at h
+    simp only [Res.ok_bind, reduceCtorEq, false_and, false_or, ToInt.int.injEq, exists_eq', true_and]
+    simp only [bind_eq_err_iff]
+    constructor
+    · rintro (h | ⟨a, _, h⟩)
+      · exact h
+      · exfalso
+        split at h
+        · cases h
+        · split at h
           · cases h
           · split at h
             · cases h
             · split at h <;> cases h
-      · rintro ⟨_, _, h⟩; exact Or.inl h
+    · intro h; exact Or.inl h
   | notInt =>
     cases hf : toInt fin <;> cases hd : toDecimal st <;> simp [errType, errValue]
   | notNum => simp [errType]
@@ -1362,7 +1362,7 @@ theorem findFirstBetween_errType_iff (s p : Bytes) (st fin : Val) :
       toInt st = .notNum ∨
       (toInt st = .notInt ∧ (toInt fin = .notNum ∨
         (((∃ j, toInt fin = .int j) ∨ toInt fin = .notInt) ∧ toDecimal st = none))) ∨
-      (∃ i k, toInt st = .int i ∧ startOffset s i = some k ∧ intArg fin = .err [Cat.invalidType]) :=
+      ((∃ i, toInt st = .int i) ∧ intArg fin = .err [Cat.invalidType]) :=
   findBetween_errType_iff false s p st fin
 
 theorem findLastBetween_errType_iff (s p : Bytes) (st fin : Val) :
@@ -1370,13 +1370,13 @@ theorem findLastBetween_errType_iff (s p : Bytes) (st fin : Val) :
       toInt st = .notNum ∨
       (toInt st = .notInt ∧ (toInt fin = .notNum ∨
         (((∃ j, toInt fin = .int j) ∨ toInt fin = .notInt) ∧ toDecimal st = none))) ∨
-      (∃ i k, toInt st = .int i ∧ startOffset s i = some k ∧ intArg fin = .err [Cat.invalidType]) :=
+      ((∃ i, toInt st = .int i) ∧ intArg fin = .err [Cat.invalidType]) :=
   findBetween_errType_iff true s p st fin
 
-/-- discrepancy with "invalid-type exactly when an argument's type is outside the signature": when `start` lies
-    beyond the end of the string, the function returns null without looking at `finish`, so an ill-typed `finish`
-    goes unreported: `find_first('ab', 'a', 5, 'x')` is null -/
-example : applyFn .findFirstBetween [.str [0x61, 0x62], .str [0x61], .num (.int .i64 5), .str [0x78]] = .ok .null := by
+/-- regression (FX26): with `start` beyond the end of the string an ill-typed `finish` used to go unreported
+    (`find_first('ab', 'a', 5, 'x')` was null) -/
+example : applyFn .findFirstBetween [.str [0x61, 0x62], .str [0x61], .num (.int .i64 5), .str [0x78]]
+    = .err [Cat.invalidType] := by
   rfl
 /-- … whereas with `start` inside the string it is reported -/
 example : applyFn .findFirstBetween [.str [0x61, 0x62], .str [0x61], .num (.int .i64 0), .str [0x78]]
